@@ -26,6 +26,8 @@ pub const DEF: PropDef = PropDef {
 };
 
 pub const THREAD_COUNTS: [usize; 6] = [2, 3, 4, 8, 12, 16];
+/// per-run watchdog of the threaded runs (inputs of this size take at most a few seconds, also on a loaded machine)
+pub const WATCHDOG_S: f64 = 150.0;
 const PAR_ALGOS: [&str; 5] = ["qs", "mpqs", "siqs", "ecm", "auto"];
 
 /// Judge a threaded outcome against the single-threaded one.
@@ -109,6 +111,42 @@ pub fn contention_cases(ctx: &Ctx, check: &str, per: usize) -> Vec<FCase> {
             }
         }
     }
+    // larger inputs (165..190 bits, about a second each): there the sieve typically completes with no more
+    // relations than the factor base has primes, so that the completion bookkeeping (gap/target/done) shared by
+    // the workers decides between success and the "not enough smooth numbers" internal error
+    let big = if ctx.quick() { 6 } else { 60 };
+    let mut r = crate::oracle::int::SplitMix(crate::engine::hash64(&(ctx.seed, check, "big")));
+    for i in 0..big {
+        let bits = 165 + r.below(26) as u32;
+        let a = bits / 2;
+        let p = crate::oracle::int::certified_prime(a, r.below(3) as u32);
+        let q = crate::oracle::int::certified_prime(bits - a, r.below(3) as u32);
+        if p == q {
+            continue;
+        }
+        let mut c = mk_case("large-semiprime", vec![p, q], if i % 3 == 2 { "auto" } else { "siqs" }, PrefSpec::default());
+        c.shape = "large-semiprime".into();
+        out.push(c);
+    }
+    out
+}
+
+/// Run threaded jobs in chunks; once a chunk produced watchdog hits the rest of the batch is skipped
+/// (a deadlocking tree would otherwise cost the watchdog for every remaining case; the hits already
+/// recorded decide the verdict).  Returns one result per job (None = skipped).
+pub fn run_chunked(jobs: &[Value], nworkers: usize, watchdog: f64, l: &mut Local) -> Vec<Option<crate::worker::JobResult>> {
+    let mut out: Vec<Option<crate::worker::JobResult>> = vec![];
+    let mut hangs = 0;
+    for chunk in jobs.chunks(48) {
+        if hangs >= 2 {
+            l.label_n("skipped-after-watchdog-hits", chunk.len() as u64);
+            out.extend(chunk.iter().map(|_| None));
+            continue;
+        }
+        let res = run_jobs("opt", chunk, nworkers, &|_| watchdog).unwrap_or_default();
+        hangs += res.iter().filter(|r| matches!(r, crate::worker::JobResult::Timeout)).count();
+        out.extend(res.into_iter().map(Some));
+    }
     out
 }
 
@@ -146,8 +184,9 @@ fn run_threads(ctx: &Ctx, l: &mut Local) {
     }
     // few concurrent workers: each case owns up to 16 threads
     let jobs: Vec<Value> = cases.iter().map(|c| c.job()).collect();
-    let res = run_jobs("opt", &jobs, 3, &|_| 600.0).unwrap_or_default();
+    let res = run_chunked(&jobs, 3, WATCHDOG_S, l);
     for ((c, r), &i) in cases.iter().zip(res.iter()).zip(idx.iter()) {
+        let Some(r) = r else { continue };
         let o = Outcome::from_job(r);
         l.case();
         l.label(&format!("algo:{}", c.algo));
